@@ -43,6 +43,7 @@ var impTargets = []impTarget{
 	{dir: "fiat-shamir", file: "transcript.go", ns: "FiatShamir", out: "Imp/Transcript.lean",
 		funcs: []string{"NewTranscript", "Bind", "ComputeChallenge"}},
 	{dir: "internal/parallel", file: "execute.go", ns: "Parallel", out: "Imp/Execute.lean", funcs: []string{"Execute"}},
+	{dir: "field/hash", file: "hashutils.go", ns: "HashUtils", out: "Imp/ExpandMsgXmd.lean", funcs: []string{"min", "ExpandMsgXmd"}},
 	{dir: "accumulator/merkletree", file: "verify.go", ns: "MerkleVerify", out: "Imp/MerkleVerify.lean", funcs: []string{"VerifyProof"},
 		abstract: []string{"leafSum", "nodeSum", "sum"}},
 }
@@ -100,15 +101,21 @@ type impField struct {
 }
 
 type impPkg struct {
-	tg        impTarget
-	fset      *token.FileSet
-	structs   map[string][]impField
-	order     []string          // struct names in source order
-	errVars   map[string]string // sentinel name -> message
-	errOrd    []string
-	funcs     map[string]*ast.FuncDecl
-	absDecl   map[string]*ast.FuncDecl
-	absCalled []string
+	tg         impTarget
+	fset       *token.FileSet
+	structs    map[string][]impField
+	order      []string          // struct names in source order
+	errVars    map[string]string // sentinel name -> message
+	errOrd     []string
+	funcs      map[string]*ast.FuncDecl
+	absDecl    map[string]*ast.FuncDecl
+	absCalled  []string
+	translated map[string]*impSig // pure package-local functions translated so far (callable from later ones)
+}
+
+type impSig struct {
+	params []*ity
+	result *ity
 }
 
 var impAbsParams, impAbsArgs string // abstract function parameters carried by every def of the current target
@@ -278,7 +285,7 @@ func (p *impPkg) zero(t *ity) string {
 // ---------------------------------------------------------------------------------------------- loading
 
 func loadImp(tg impTarget) *impPkg {
-	p := &impPkg{tg: tg, fset: token.NewFileSet(), structs: map[string][]impField{}, errVars: map[string]string{}, funcs: map[string]*ast.FuncDecl{}, absDecl: map[string]*ast.FuncDecl{}}
+	p := &impPkg{tg: tg, fset: token.NewFileSet(), structs: map[string][]impField{}, errVars: map[string]string{}, funcs: map[string]*ast.FuncDecl{}, absDecl: map[string]*ast.FuncDecl{}, translated: map[string]*impSig{}}
 	f, err := parser.ParseFile(p.fset, filepath.Join(repo, tg.dir, tg.file), nil, parser.ParseComments)
 	if err != nil {
 		die("imp: parse: %v", err)
@@ -544,12 +551,21 @@ func (p *impPkg) translateFunc(name string) string {
 	for _, fu := range f.fuels {
 		params = append(params, "("+fu+" : Nat)")
 	}
+	if f.recv == "" && len(f.results) == 1 && !u.W && !u.H && !u.S && !u.B && len(f.fuels) == 0 && !f.usesNumCPU {
+		sig := &impSig{result: f.results[0]}
+		for _, fl := range fd.Type.Params.List {
+			for range fl.Names {
+				sig.params = append(sig.params, p.paramType(fl.Type))
+			}
+		}
+		p.translated[name] = sig
+	}
 	var b strings.Builder
 	for _, h := range f.helpers {
 		b.WriteString(h + "\n")
 	}
 	pos := p.fset.Position(fd.Pos())
-	fmt.Fprintf(&b, "/-- %s/%s line %d: `func %s` -/\ndef %s%s %s : %s :=\n%s\n\n", p.tg.dir, p.tg.file, pos.Line, name, name, whParams(*u), strings.Join(params, " "), f.retTy(), body)
+	fmt.Fprintf(&b, "/-- %s/%s line %d: `func %s` -/\ndef %s%s %s : %s :=\n%s\n\n", p.tg.dir, p.tg.file, pos.Line, name, lname(name), whParams(*u), strings.Join(params, " "), f.retTy(), body)
 	return b.String()
 }
 
